@@ -1462,6 +1462,17 @@ class Generator:
         return self._faults(op, est, self.config['p_start_kill'],
                             self.config['p_cmd_fail'])
 
+    @staticmethod
+    def _finish_steps(cont):
+        """Steps a complete finish of a fully started container takes."""
+        man = cont['manifest']
+        created = cont['created'] or {'rules': {}, 'endpoints': {},
+                                      'ipsets': []}
+        infra = sum(1 for ep in man['endpoints'] if ep['type'] == 'infra')
+        eph = man['ephemeral_ports']['tcp'] + man['ephemeral_ports']['udp']
+        return (1 + len(created['rules']) + len(created['endpoints']) +
+                (1 if man['vring'] else 0) + infra + eph + 1 + 2)
+
     def g_c_finish(self, world):
         names = sorted(n for n in world.cont if n in world.owners)
         if not names:
@@ -1471,15 +1482,28 @@ class Generator:
         r = self.rng.random()
         if todo and r < 0.8:
             name = self.rng.choice(todo)
+            if world.cont[name].get('finish_killed') and \
+                    self.rng.random() < self.config['refinish_delay']:
+                return None     # leave time for others to start in between
         elif r < 0.9:
             return None
         else:
             name = self.rng.choice(names)
-        man = world.cont[name]['manifest']
+        cont = world.cont[name]
+        op = {'name': name, 'ord': self.order()}
+        if cont['state'] == 'started' and not cont['finished']:
+            total = self._finish_steps(cont)
+            if self.frng.random() < self.config['p_finish_kill']:
+                if self.frng.random() < 0.4:
+                    op['crash_at'] = max(1, total - self.frng.randint(0, 3))
+                else:
+                    op['crash_at'] = self.frng.randint(1, total)
+                return op
+            return self._faults(op, total, 0.0, self.config['p_cmd_fail'])
+        man = cont['manifest']
         est = (len(man['endpoints']) * 4 + man['ephemeral_ports']['tcp'] * 2 +
                man['ephemeral_ports']['udp'] * 2 + len(man['passthrough']) +
                6)
-        op = {'name': name, 'ord': self.order()}
         return self._faults(op, est, self.config['p_finish_kill'],
                             self.config['p_cmd_fail'])
 
@@ -1522,6 +1546,7 @@ def make_config(prop, tier, rng):
         'p_cmd_fail': rng.choice([0.0, 0.05, 0.15]),
         'p_start_kill': rng.choice([0.0, 0.15, 0.35]),
         'p_finish_kill': rng.choice([0.0, 0.15, 0.35]),
+        'refinish_delay': rng.choice([0.0, 0.5, 0.85]),
         'wmul': wmul,
     }
     return cfg
